@@ -293,7 +293,7 @@ func coqIdent(s string) string {
 func genCoq(t *Trans) string {
 	var b strings.Builder
 	b.WriteString("(* GENERATED by translator/lock from the current source of the repository - do not edit.\n")
-	b.WriteString("   One body per function / method / goroutine literal of internal/{ttlcode,deny,chanmap,crossbar};\n")
+	b.WriteString("   One body per function / method / goroutine literal of internal/{ttlcode,deny,chanmap,crossbar,access,relay};\n")
 	b.WriteString("   helpers documented as \"caller holds the lock\" are inlined at their call sites. *)\n")
 	b.WriteString("From Relay Require Import Base.Prelude Model.LockIR.\nLocal Open Scope string_scope.\n\n")
 	var names, stores []string
